@@ -1,6 +1,8 @@
 package rules
 
 import (
+	"go/constant"
+	"go/token"
 	"go/ast"
 	"go/types"
 	"strings"
@@ -26,14 +28,42 @@ func runC12(p *eng.Prog, r *eng.Report, tier string) {
 	c12FromStart(c)
 	c12Restart(c)
 	c12Bind(c)
+	// C12.2: "a stream error sent instead of a header is returned" (not a panic)
+	tokenDecoderUnmarshaler(c, "C12.2", func(f *eng.Fn) bool {
+		return strings.HasPrefix(f.Short, "internal/stream.") || f.Short == "xmpp.decodeStreamErr"
+	})
 }
 
 func c12Send(c *cx) {
 	id := "C12.1"
-	f := c.fn(id, "internal/stream", "Send")
-	if f == nil {
+	send := c.fn(id, "internal/stream", "Send")
+	if send == nil {
 		return
 	}
+	// Send and every helper of its package that writes to a buffered writer
+	// (a helper with a "nothing to escape" fast path writes raw text too)
+	fns := []*eng.Fn{send}
+	for _, hf := range c.allFns() {
+		if hf == send || hf.Pkg != send.Pkg || hf.Body == nil {
+			continue
+		}
+		for _, cl := range hf.AllCalls() {
+			cid := hf.CalleeID(cl)
+			if cid == "bufio.Writer.Write" || cid == "bufio.Writer.WriteString" || (strings.HasPrefix(cid, "fmt.Fprint") && len(cl.Args) > 0 && strings.Contains(eng.TypeStr(hf.Info().TypeOf(cl.Args[0])), "bufio.Writer")) {
+				fns = append(fns, hf)
+				break
+			}
+		}
+	}
+	nOps := 0
+	for _, f := range fns {
+		nOps += c12SendIn(c, id, f)
+	}
+	c.r.Floor(id, "non-constant header operands", nOps, 4)
+	c12SendNS(c, id)
+}
+
+func c12SendIn(c *cx, id string, f *eng.Fn) int {
 	g := f.Graph()
 	sig := f.Sig()
 	// string parameters and how they reach the writer
@@ -81,9 +111,7 @@ func c12Send(c *cx) {
 				okv := false
 				why := "operand " + what + " is written into the header without escaping"
 				if v != nil {
-					if escaped[v] && cid != "fmt.Fprintf" {
-						okv = true
-					} else {
+					{
 						// provenance: all call sites pass a constant or RandomID()/RandomLen()
 						idx := -1
 						for i := 0; i < sig.Params().Len(); i++ {
@@ -95,7 +123,7 @@ func c12Send(c *cx) {
 							okv = true
 							ncs := 0
 							for _, cf := range c.allFns() {
-								for _, cc := range cf.Calls("internal/stream.Send") {
+								for _, cc := range cf.Calls(f.Short) {
 									ncs++
 									cp, _ := cf.Graph().Where(cc)
 									an := cf.Norm(cc.Args[idx], &cp)
@@ -115,9 +143,11 @@ func c12Send(c *cx) {
 			}
 		}
 	}
-	c.r.Floor(id, "non-constant header operands", nOps, 4)
-	// the escaped text is written between quotes by Write calls only (not through Fprintf)
-	// content namespace: constant before every Send in the negotiator
+	return nOps
+}
+
+// c12SendNS: the content namespace is a constant before every Send in the negotiator.
+func c12SendNS(c *cx, id string) {
 	neg := c.p.Func("", "negotiator")
 	if neg != nil && len(neg.Lits) > 0 {
 		nf := neg.Lits[0]
@@ -230,50 +260,68 @@ func c12FromStart(c *cx) {
 	g := f.Graph()
 	want := map[string]string{"xmlns": "XMLNS", "to": "To", "from": "From", "id": "ID", "version": "Version", "lang": "Lang"}
 	seen := map[string]bool{}
-	for _, ce := range g.CondEdges() {
-		for _, a := range ce.Atoms {
-			if strings.HasPrefix(a.S, "!") || !strings.HasPrefix(a.S, "eq(encoding/xml.Name{") {
+	// the arms of the switch over the attribute name, with the names as
+	// constant VALUES (named constants resolved)
+	f.WalkBody(func(nd ast.Node) bool {
+		cc, ok := nd.(*ast.CaseClause)
+		if !ok {
+			return true
+		}
+		for _, e := range cc.List {
+			lit, ok := ast.Unparen(e).(*ast.CompositeLit)
+			if !ok || eng.TypeStr(f.Info().TypeOf(lit)) != "encoding/xml.Name" {
 				continue
 			}
-			for attr, fld := range want {
-				if !strings.Contains(a.S, "Local:\""+attr+"\"") {
+			space, local := "", ""
+			if sv := structLitField(lit, "Space"); sv != nil {
+				cv := f.ConstVal(sv)
+				if cv == nil {
 					continue
 				}
-				// the arm stores into / unmarshals into the like-named field
-				okf := false
-				for _, nd := range g.ReachableNodes(g.EdgeTarget(ce.E), nil) {
-					hit := false
-					ast.Inspect(nd, func(x ast.Node) bool {
-						if sel, ok := x.(*ast.SelectorExpr); ok && sel.Sel.Name == fld {
-							if k, _ := f.FieldClass(sel); k == "stream.Info."+fld {
-								hit = true
-							}
-						}
-						return true
-					})
-					if hit {
-						okf = true
-					}
-					if _, isRet := nd.(*ast.ReturnStmt); isRet {
-						break
-					}
-					// stop at the loop head: only this arm
-					if e, isExpr := nd.(ast.Expr); isExpr {
-						if _, isRange := g.Parent(e).(*ast.RangeStmt); isRange {
-							break
-						}
-					}
+				space = constant.StringVal(cv)
+			}
+			if lv := structLitField(lit, "Local"); lv != nil {
+				cv := f.ConstVal(lv)
+				if cv == nil {
+					continue
 				}
-				if !seen[attr] {
-					seen[attr] = true
-					c.r.Check(id, f, "attribute "+attr, "T: the header attribute "+attr+" is stored into Info."+fld, f.Pos(), okf, "arm for "+attr+" does not touch Info."+fld)
-				}
+				local = constant.StringVal(cv)
+			}
+			fld, isAttr := want[local]
+			if !isAttr {
+				continue
+			}
+			// the name as encoding/xml presents it: unprefixed attributes have
+			// an empty Space, xml:lang has the XML namespace URL (the decoder
+			// translates the reserved prefix; "xml" never arrives)
+			wantSpace := ""
+			if local == "lang" {
+				wantSpace = "http://www.w3.org/XML/1998/namespace"
+			}
+			if space != wantSpace {
+				continue
+			}
+			okf := false
+			for _, st := range cc.Body {
+				ast.Inspect(st, func(x ast.Node) bool {
+					if sel, ok := x.(*ast.SelectorExpr); ok && sel.Sel.Name == fld {
+						if k, _ := f.FieldClass(sel); k == "stream.Info."+fld {
+							okf = true
+						}
+					}
+					return true
+				})
+			}
+			if !seen[local] {
+				seen[local] = true
+				c.r.Check(id, f, "attribute "+local, "T: the header attribute "+local+" is stored into Info."+fld, cc.Pos(), okf, "arm for "+local+" does not touch Info."+fld)
 			}
 		}
-	}
+		return true
+	})
 	for attr := range want {
 		if !seen[attr] {
-			c.r.Check(id, f, "attribute "+attr, "T: an arm exists for the header attribute "+attr, f.Pos(), false, "no arm for attribute "+attr)
+			c.r.Check(id, f, "attribute "+attr, "T: an arm exists for the header attribute "+attr+" under the name encoding/xml gives it", f.Pos(), false, "no arm matches attribute "+attr+" as decoded (xml:lang arrives with Space http://www.w3.org/XML/1998/namespace, not \"xml\")")
 		}
 	}
 	// parse failures of to/from/version are reported
@@ -414,6 +462,11 @@ func c12Bind(c *cx) {
 		}
 	}
 	c.r.Floor("C12.5", "bind request literal", nreq, 1)
+	// the reply (and the request, on the receiving side) is decoded into a
+	// fresh value: encoding/xml leaves fields of the target untouched when the
+	// element lacks them, so a reused target lets a reply without an id or
+	// type inherit the request's
+	freshDecodeTargets(c, "C12.5", f, 2)
 	for _, cl := range f.Calls("xmpp.Session.UpdateAddr") {
 		pt, _ := g.Where(cl)
 		c.domAny("C12.5", f, cl, "UpdateAddr [our request id]", []string{"eq(*.ID,internal/attr.RandomID())", "eq(internal/attr.RandomID(),*.ID)"})
@@ -537,4 +590,58 @@ func c12Bind(c *cx) {
 	c.r.Floor("C12.6", "bound address literal", nj, 1)
 	// callback errors that are not stanza errors are returned: pending-error discipline
 	errDiscipline(c, "C12.6", []*eng.Fn{f}, acceptNEG, false)
+}
+
+// freshDecodeTargets: every xml Decode/DecodeElement target in f is a zero
+// value on every path (its reaching definitions are empty composite literals,
+// zero declarations or new(T)).
+func freshDecodeTargets(c *cx, id string, f *eng.Fn, floor int) {
+	g := f.Graph()
+	n := 0
+	for _, cl := range f.AllCalls() {
+		cid := f.CalleeID(cl)
+		if cid != "encoding/xml.Decoder.DecodeElement" && cid != "encoding/xml.Decoder.Decode" {
+			continue
+		}
+		n++
+		pt, _ := g.Where(cl)
+		target := ast.Unparen(cl.Args[0])
+		if u, ok := target.(*ast.UnaryExpr); ok && u.Op == token.AND {
+			target = ast.Unparen(u.X)
+		}
+		ok := false
+		why := "target " + f.Norm(cl.Args[0], nil) + " is not a local value"
+		if idn, isID := target.(*ast.Ident); isID {
+			if v, isVar := f.Info().ObjectOf(idn).(*types.Var); isVar && eng.IsLocal(v) {
+				ds := g.ReachingDefs(v, pt)
+				ok = len(ds) > 0
+				for _, d := range ds {
+					fresh := false
+					switch d.Kind {
+					case eng.DefZero:
+						fresh = true
+					case eng.DefPlain:
+						if d.RHS != nil {
+							r := ast.Unparen(d.RHS)
+							if u, isU := r.(*ast.UnaryExpr); isU && u.Op == token.AND {
+								r = ast.Unparen(u.X)
+							}
+							if lit, isLit := r.(*ast.CompositeLit); isLit && len(lit.Elts) == 0 {
+								fresh = true
+							}
+							if call, isCall := r.(*ast.CallExpr); isCall && f.CalleeID(call) == "builtin.new" {
+								fresh = true
+							}
+						}
+					}
+					if !fresh {
+						ok = false
+						why = "the decode target " + v.Name() + " may hold earlier data (defined at " + c.p.Pos(d.Node.Pos()) + "): attributes missing from the element keep the old values"
+					}
+				}
+			}
+		}
+		c.r.Check(id, f, "decode target of "+cid, "K: XML is decoded into a fresh zero value", cl.Pos(), ok, why)
+	}
+	c.r.Floor(id, "decode targets in "+f.Short, n, floor)
 }
